@@ -9,7 +9,7 @@ var Kinds = []string{
 	"arr-string", "arr-int64", "arr-number", "arr-datetime", "arr-refobj", "arr-inlineobj", "arr-refarr", "arr-any",
 	"object", "object-empty", "object-addl-true", "object-addl-string", "object-addl-refobj", "any",
 	"allOf-ref-inline", "allOf-inline-ref", "allOf-ref-ref", "allOf-inline-inline",
-	"oneOf-plain", "oneOf-disc", "oneOf-disc-map", "oneOf-disc-partialmap",
+	"oneOf-plain", "oneOf-disc", "oneOf-disc-map", "oneOf-disc-partialmap", "oneOf-disc-namemap",
 }
 
 var Positions = []string{"query", "header", "path", "reqbody", "respbody", "resphdr", "prop", "item", "addl", "comp"}
@@ -114,6 +114,13 @@ func KindSchema(kind string) (M, map[string]M) {
 		aux["AuxA"], aux["AuxB"], aux["AuxC"] = a, b, c
 		disc := M{"propertyName": "kind", "mapping": M{"first": "#/components/schemas/AuxA", "second": "#/components/schemas/AuxB"}}
 		return M{"oneOf": L{Ref("schemas", "AuxA"), Ref("schemas", "AuxB"), Ref("schemas", "AuxC")}, "discriminator": disc}, aux
+	case "oneOf-disc-namemap":
+		// explicit mapping whose keys are the schema names themselves, plus one more key
+		a := Obj([]string{"kind", "a"}, M{"kind": Prim("string", ""), "a": Prim("string", "")})
+		b := Obj([]string{"kind", "b"}, M{"kind": Prim("string", ""), "b": Prim("integer", "int64")})
+		aux["AuxA"], aux["AuxB"] = a, b
+		disc := M{"propertyName": "kind", "mapping": M{"AuxA": "#/components/schemas/AuxA", "AuxB": "#/components/schemas/AuxB", "bee": "#/components/schemas/AuxB"}}
+		return M{"oneOf": L{Ref("schemas", "AuxA"), Ref("schemas", "AuxB")}, "discriminator": disc}, aux
 	case "oneOf-disc", "oneOf-disc-map":
 		a := Obj([]string{"kind", "a"}, M{"kind": Prim("string", ""), "a": Prim("string", "")})
 		b := Obj([]string{"kind", "b"}, M{"kind": Prim("string", ""), "b": Prim("integer", "int64")})
